@@ -562,7 +562,28 @@ def _unsup(msg):
     raise Unsupported(msg)
 
 
+def _sbytes_pad(obj, name, width, fill=b" "):
+    if is_sym(width):
+        raise Unsupported("bytes.%s with symbolic width" % name)
+    f = fill[0] if isinstance(fill, (bytes, bytearray)) and len(fill) == 1 else None
+    if f is None:
+        raise TypeError("%s() argument 2 must be a byte string of length 1" % name)
+    n = max(0, width - len(obj.cells))
+    if name == "ljust":
+        cells = list(obj.cells) + [f] * n
+    elif name == "rjust":
+        cells = [f] * n + list(obj.cells)
+    else:  # center, as CPython: the extra byte goes to the left when both the margin and the width are odd
+        left = n // 2 + (n & width & 1)
+        cells = [f] * left + list(obj.cells) + [f] * (n - left)
+    return SBytes(cells, obj.mutable)
+
+
 def _sbytes_attr(I, obj, name):
+    if name in ("ljust", "rjust", "center") and not obj.is_concrete():
+        return _Method(lambda width, fill=b" ": _sbytes_pad(obj, name, width, fill), name)
+    if name == "zfill" and not obj.is_concrete():
+        return _Method(lambda width: _sbytes_pad(obj, "rjust", width, b"0"), name)
     if obj.is_concrete() and name not in ("append", "extend", "insert", "pop", "clear", "reverse", "remove", "copy"):
         real = obj.concrete()
         m = getattr(real, name)
